@@ -162,8 +162,19 @@ def main():
     summary = {}
     for r in results:
         summary[r["outcome"]] = summary.get(r["outcome"], 0) + 1
-    rep = dict(seed=a.seed, per_file=a.per_file, summary=summary, mutants=sorted(results, key=lambda r: (r["file"], r["line"])))
-    json.dump(rep, open(os.path.join(VERIF, "selftest", "model_mutation_report.json"), "w"), indent=1)
+    # merge with earlier runs (other seeds): the report accumulates distinct mutants
+    rp = os.path.join(VERIF, "selftest", "model_mutation_report.json")
+    seeds = [a.seed]
+    if os.path.exists(rp):
+        old = json.load(open(rp))
+        have = {(r["file"], r["line"], r["op"]) for r in results}
+        results += [r for r in old.get("mutants", []) if (r["file"], r["line"], r["op"]) not in have]
+        seeds = sorted(set(old.get("seeds", [old.get("seed")]) + seeds))
+        summary = {}
+        for r in results:
+            summary[r["outcome"]] = summary.get(r["outcome"], 0) + 1
+    rep = dict(seeds=seeds, per_file=a.per_file, summary=summary, mutants=sorted(results, key=lambda r: (r["file"], r["line"])))
+    json.dump(rep, open(rp, "w"), indent=1)
     print("summary:", summary)
     for r in results:
         if r["outcome"] == "survived":
